@@ -222,7 +222,7 @@ def playback_batch(repo, kdir, feat, obls, log, jobs=8, timeout_s=900, max_nativ
     files = sorted(set(os.path.join(kdir, o["module"] + ".rs") for o in obls))
     before = {f: open(f).read() for f in files}
     cmd = base_cmd(feat) + ["-Z", "concrete-playback", "--concrete-playback=inplace", "--output-format", "terse",
-                            "--exact", "--harness-timeout", "%ds" % timeout_s, "-j", str(max(1, min(jobs, len(obls))))]
+                            "--exact", "--harness-timeout", "%ds" % timeout_s]  # (--concrete-playback excludes --jobs)
     for o in obls:
         cmd += ["--harness", o["harness"]]
     try:
